@@ -446,19 +446,23 @@ def _solver_cmd(solver: str, path: str, timeout: float):
     return cmd + [f"--tlimit={int(timeout * 1000)}", p2]
 
 
-def confirm(path: str, prover: str, timeout: float):
-    """Run the confirmation configurations concurrently.  -> (disagree | None, [configs that said unsat], attempts)"""
+def confirm(path: str, prover: str, timeout: float, z3_cap: float = 15.0):
+    """Run the confirmation configurations concurrently.  -> (disagree | None, [configs that said unsat], attempts)
+    The z3 noematch configurations rarely answer at all after the first seconds, so they are capped at `z3_cap` seconds; only
+    cvc5 (a different code base, worth waiting for) gets the full budget of the thorough tier."""
     procs = {}
+    limits = {}
     for name in CONFIRM:
         if name == prover or (name.startswith("cvc5") and (path in _no_cvc5 or prover == "cvc5")):
             continue
+        limits[name] = timeout if name.startswith("cvc5") else min(timeout, z3_cap)
         try:
-            procs[name] = (subprocess.Popen(_solver_cmd(name, path, timeout), stdout=subprocess.PIPE, stderr=subprocess.DEVNULL, text=True), time.time())
+            procs[name] = (subprocess.Popen(_solver_cmd(name, path, limits[name]), stdout=subprocess.PIPE, stderr=subprocess.DEVNULL, text=True), time.time())
         except OSError:
             continue
     unsat, attempts, dis = [], [], None
     start = time.time()
-    deadline = start + timeout + 5
+    deadline = start + max(limits.values(), default=timeout) + 5
     pending = dict(procs)
     while pending:
         # one independent `unsat` is a confirmation: stop waiting for the others (after a short grace period in which a
@@ -476,7 +480,7 @@ def confirm(path: str, prover: str, timeout: float):
             first = out.strip().split("\n", 1)[0].strip() if out.strip() else ("stopped" if enough else "timeout")
             if first not in ("sat", "unsat", "unknown", "stopped"):
                 first = "timeout" if "timeout" in out or not out.strip() else "error"
-            attempts.append({"solver": name, "status": first, "time_s": round(time.time() - t0, 3), "limit_s": timeout})
+            attempts.append({"solver": name, "status": first, "time_s": round(time.time() - t0, 3), "limit_s": limits.get(name, timeout)})
             if first == "unsat":
                 unsat.append(name)
             elif first == "sat" and dis is None:
